@@ -8,6 +8,7 @@ import dataclasses
 import keyword
 import logging
 import re
+from enum import Enum
 from typing import Any, Set, Type, TypeVar, cast
 
 logger = logging.getLogger(__name__)
@@ -457,6 +458,11 @@ class DataclassSerializer:
             Serialised object with all dataclasses converted to dicts
         """
         from .cattrs_converter import unstructure_to_dict
+
+        # Enum members become their value - also members of `(str, Enum)` / `(int, Enum)` classes, which would pass for
+        # primitives below while str() of them (what ends up in a URL, query string or cookie) is "Color.RED"
+        if isinstance(obj, Enum):
+            return DataclassSerializer._serialize_with_tracking(obj.value, visited)
 
         # Handle primitives early (no tracking needed)
         if obj is None or isinstance(obj, (str, int, float, bool)):
